@@ -780,13 +780,20 @@ class RealRun:
             return ({"op": kind, "k": o["k"]}, e.digest(w0))
         if kind == "stash":
             # the adversary keeps a copy of net[k] aside (the original travels on): a duplicate to be delivered much later
+            # with "take": the adversary takes the packet itself out of the network (nothing travels on): its FIRST delivery
+            # happens hundreds of messages later, behind far newer ones (a window / high-water mark on Syn indices loses it)
             if sim.net.net:
-                self.stash.append(sim.net.net[o["k"] % len(sim.net.net)])
+                k = o["k"] % len(sim.net.net)
+                if o.get("take"):
+                    self.stash.append((sim.net.net.pop(k), True))
+                else:
+                    self.stash.append((sim.net.net[k], False))
             return (None, None)
         if kind == "unstash":
-            for pkt in self.stash:
+            for pkt, taken in self.stash:
                 sim.net.net.append(pkt)
-                self.trace.append(("dup", sim.addr_id(pkt[0])))
+                if not taken:
+                    self.trace.append(("dup", sim.addr_id(pkt[0])))
             del self.stash[:]
             return (None, None)
         if kind == "flush":
@@ -1449,7 +1456,7 @@ def long_cases(rng, n_cases=2):
     """LONG histories (oracle only - the model side is not run on them, its state digest is quadratic in the length):
     1500-1900 acknowledged messages through ONE real Listener, in chunks; the network adversary keeps copies of early
     packets (and of some later ones) and delivers them hundreds / more than a thousand messages later, some only at the
-    very end. Receiver: a bare Listener read by recv_messages, or the real Executor.recv_loop. Any bound, expiry or reset
+    very end; two in five of the held packets are TAKEN (the original itself is delayed: a late first delivery behind newer indices). Receiver: a bare Listener read by recv_messages, or the real Executor.recv_loop. Any bound, expiry or reset
     of `Listener.acked` (the source's own TODO) shows as a second hand-over of an old message."""
     out = []
     for ci in range(n_cases):
@@ -1482,7 +1489,7 @@ def long_cases(rng, n_cases=2):
             if first or rng.random() < 0.25:
                 # hold copies of up to 6 packets of this chunk
                 for _ in range(rng.randint(2, 6)):
-                    ops.append({"op": "stash", "k": rng.randrange(c)})
+                    ops.append({"op": "stash", "k": rng.randrange(c), "take": rng.random() < 0.4})
                     held += 1
                 pending_unstash.append(sent + (rng.choice([1100, 1300, 10 ** 9]) if first else rng.choice([100, 300, 600, 1100, 10 ** 9])))
                 first = False
